@@ -31,7 +31,8 @@ ASSUMPTIONS = [
 ]
 DEDUPE = False
 FIELDS = ["zeros", "one", "two", "moved", "ones", "noise", "scaled"]  # "scaled" = 3 * two - 1: other intensity levels than the rest
-TIMES = {"unit": [0, 1, 2, 3], "floats": [0.25, 0.75, 2.0, 2.125], "repeated": [0, 1, 1, 1.5]}  # equal consecutive time stamps are valid input
+# equal consecutive time stamps are valid input; so is a clock that restarts (one tracker following two consecutive runs)
+TIMES = {"unit": [0, 1, 2, 3], "floats": [0.25, 0.75, 2.0, 2.125], "repeated": [0, 1, 1, 1.5], "restart": [0, 1, 0, 0.5]}
 
 
 def grids():
@@ -168,7 +169,7 @@ def cases(block):
                 # fits dominate the cost: time variant and source selection are varied together instead of as a product
                 combos = [("unit", "none"), ("floats", "index"), ("repeated", "callable")]
             else:
-                combos = [(tv, source) for tv in (TIMES if full or len(seq) == 0 else ["unit"]) for source in (("none", "index", "callable") if len(seq) in (0, 2) else ("none",))]
+                combos = [(tv, source) for tv in (TIMES if full or len(seq) == 0 else ["unit"]) for source in (("none", "index", "callable", "live") if len(seq) in (0, 2) else ("none", "live") if (len(seq) >= 2 and tv in ("unit", "restart")) else ("none",))]
             for tv, source in combos:
                     for prefilled in ((False, True) if len(seq) <= 1 else (False,)):
                         yield {"part": p, "grid": block["grid"], "settings": st, "seq": list(seq), "times": tv, "source": source, "prefilled": prefilled}
@@ -176,6 +177,8 @@ def cases(block):
         for seq in sequences(3, FIELDS):
             for tv in ((("floats" if len(seq) % 2 else "unit"), "repeated") if len(seq) >= 3 else (("floats" if len(seq) % 2 else "unit"),)):
                 yield {"part": p, "grid": block["grid"], "method": block["method"], "seq": list(seq), "times": tv, "source": "index" if len(seq) == 2 else "none"}
+                if len(seq) >= 2:
+                    yield {"part": p, "grid": block["grid"], "method": block["method"], "seq": list(seq), "times": "restart" if len(seq) == 3 else tv, "source": "live"}
     elif p == "two-trackers" and block.get("big"):
         for b in range(len(BIG_SETTINGS)):
             if b != block["a"]:
@@ -227,12 +230,34 @@ def etc_equal(a, b):
     return len(a.times) == len(b.times) and all(float(s) == float(t) for s, t in zip(a.times, b.times)) and len(a.emulsions) == len(b.emulsions) and all(ekey(x) == ekey(y) for x, y in zip(a.emulsions, b.emulsions))
 
 
+class LiveState:
+    """ONE state object whose data is overwritten in place before every step - the way a solver presents its state to the trackers"""
+
+    def __init__(self, fields):
+        self.fields = fields
+        self.state = fields[0].copy() if fields else None
+
+    def __len__(self):
+        return len(self.fields)
+
+    def __getitem__(self, i):
+        self.state.data[...] = self.fields[i].data
+        return self.state
+
+    def __iter__(self):
+        for f in self.fields:
+            self.state.data[...] = f.data
+            yield self.state
+
+
 def wrap_source(fields, source):
     """returns (what is fed to the tracker, the `source` argument)"""
     from pde import FieldCollection
 
     if source == "none":
         return fields, None
+    if source == "live":
+        return LiveState(fields), None
     other = [f.copy() for f in fields]
     for o in other:
         o.data = 0.37
